@@ -47,7 +47,8 @@ func (c *Correctable) Watch(level int) <-chan struct{} {
 	ch := make(chan struct{})
 	c.mu.Lock()
 	defer c.mu.Unlock()
-	if level <= c.level {
+	if level <= c.level || c.done {
+		// the level has been reached, or never will be: the call is done
 		close(ch)
 		return ch
 	}
